@@ -891,19 +891,14 @@ class CloseReal:
         if ev:
             n_code = ev[0][1] or 0
             r = ev[0][2]
-            if self.invalid_reason_sent:
-                n_reason = "any"
-            else:
-                n_reason = "none" if r is None else ("valid" if r == "bye" else "other")
-        out = {"closeFrames": len(closes), "sentCode": sent_code, "dataAfterClose": data_after,
-               "pings": sum(1 for f in self.frames if opcode(f[0]) == 9),
-               "tcpOpen": not self.side.closed(), "notified": len(ev), "nCode": n_code, "nReason": n_reason,
-               "delivered": sum(1 for e in self.side.events if e[0] == "msg"), "err": self.err}
-        if self.invalid_reason_sent and not self.gates:
-            # malformed close frame processed: echo / reported code are left open by the specification
-            out["closeFrames"] = out["sentCode"] = out["nCode"] = -1
-            out["nReason"] = "any"
-        return out
+            n_reason = "none" if r is None else ("valid" if r == "bye" else "other")
+        # raw observation; what the specification leaves open after a malformed close frame has been
+        # processed (echo, reported code / reason) is masked by the comparison, driven by the
+        # specification's own projection (checks/C16.mask, Trace_WsClose.Bind)
+        return {"closeFrames": len(closes), "sentCode": sent_code, "dataAfterClose": data_after,
+                "pings": sum(1 for f in self.frames if opcode(f[0]) == 9),
+                "tcpOpen": not self.side.closed(), "notified": len(ev), "nCode": n_code, "nReason": n_reason,
+                "delivered": sum(1 for e in self.side.events if e[0] == "msg"), "err": self.err}
 
     def finish(self):
         """After the path: let every timer expire; returns the final projection."""
